@@ -79,12 +79,16 @@ instance : Monad DEM where
 end DEM
 open DEM
 
-/-- `int(s)` for a string of ASCII digits (the only strings the validated paths pass);
-    anything else is reported as `ValueError` (Python's `int` additionally accepts signs,
-    underscores, surrounding whitespace and non-ASCII digits — outside the modelled domain). -/
-def pyIntStr : Str → Nat → Bool → Res Nat
+/-- `int(s)` for a string of decimal digits (of any script; `int` accepts them all).  Anything
+    else is reported as `ValueError`; Python's `int` additionally accepts a sign, underscores
+    between digits and surrounding whitespace — those inputs are outside the modelled domain
+    (they cannot occur in an account number that passed the structure check). -/
+def pyIntStr (U : Unicode) : Str → Nat → Bool → Res Nat
   | [], v, seen => if seen then .ok v else .crash .valueError
-  | c :: t, v, _ => if isAsciiDigit c then pyIntStr t (v * 10 + (c - 48)) true else .crash .valueError
+  | c :: t, v, _ =>
+    match U.intChar c with
+    | .ok d => pyIntStr U t (v * 10 + d) true
+    | _ => .crash .valueError
 
 /-- `s[i]` for a Python index that may be negative. -/
 def pyIndex (s : Str) (i : Int) : Res Nat :=
@@ -223,7 +227,7 @@ def computeHook0 (U : Unicode) (P : DEParams) : List ComputeTag → List Str →
   | .a08 :: rest, cs =>
     match cs with
     | [a] => do
-      let n ← lift (pyIntStr a 0 false)
+      let n ← lift (pyIntStr U a 0 false)
       if n < P.minAccount then pure [] else computeHook0 U P rest cs
     | _ => crash .valueError
   | .a09 :: _, _ => pure []
@@ -247,7 +251,7 @@ def validateHook0 (U : Unicode) (P : DEParams) (comp : List Str → DEM Str) :
   | .a08 :: rest, cs =>
     match cs with
     | [a] => do
-      let n ← lift (pyIntStr a 0 false)
+      let n ← lift (pyIntStr U a 0 false)
       if n < P.minAccount then pure true else validateHook0 U P comp rest cs
     | _ => crash .valueError
   | .a09 :: _, _ => pure true
@@ -283,7 +287,7 @@ def validateHook0 (U : Unicode) (P : DEParams) (comp : List Str → DEM Str) :
   | .a68 :: rest, cs =>
     match cs with
     | [a] => do
-      let n ← lift (pyIntStr a 0 false)
+      let n ← lift (pyIntStr U a 0 false)
       if 400000000 ≤ n && n ≤ 499999999 then pure true
       else do
         let ok ← validateHook0 U P comp rest cs
@@ -303,7 +307,7 @@ def validateHook0 (U : Unicode) (P : DEParams) (comp : List Str → DEM Str) :
   | .a99 :: rest, cs =>
     match cs with
     | [a] => do
-      let n ← lift (pyIntStr a 0 false)
+      let n ← lift (pyIntStr U a 0 false)
       if 396000000 ≤ n && n ≤ 499999999 then pure true else validateHook0 U P comp rest cs
     | _ => crash .valueError
   | _, _ => crash .other
